@@ -539,6 +539,7 @@ def rule_self_import_compares_the_package(repo: Repo, rep, rule: str = "R13.9") 
         raise AnalysisError(f"{rule}: the self-import decision of _resolve_named_schema (flag guarding the forward-reference return) was not found (anchor)")
     sub = f"{sr.relpath}:_resolve_named_schema self-import decision"
     ok = False
+    anywhere = None
     for v in defs:
         vi = L.inline(v, depth=5, stop=tuple(L.params))
         txt = norm(vi)
@@ -547,7 +548,20 @@ def rule_self_import_compares_the_package(repo: Repo, rep, rule: str = "R13.9") 
                 isinstance(c, ast.Constant) and isinstance(c.value, str) and "models" in c.value for c in ast.walk(vi))
         if looks_at_dir:
             ok = True
-    if ok:
+        # ... and it is the file's *own* directory that is compared: `"models" in path.parts` / `"models" in current_file` also holds for a project
+        # that merely lives below some directory called `models` (the decision - and with it the generated bytes - would depend on the output location)
+        for c in ast.walk(vi):
+            if isinstance(c, ast.Compare) and len(c.ops) == 1 and isinstance(c.ops[0], (ast.In, ast.NotIn)) and isinstance(c.left, ast.Constant) and isinstance(c.left.value, str):
+                rhs = c.comparators[0]
+                whole_path = (isinstance(rhs, ast.Attribute) and rhs.attr in ("parts", "parents")) or isinstance(rhs, ast.Name) or \
+                    (isinstance(rhs, ast.Call) and (dotted(rhs.func) or "").split(".")[-1] in ("str", "as_posix", "abspath", "dirname", "split"))
+                if whole_path:
+                    anywhere = c
+    if anywhere is not None:
+        rep.violation(rule, sub, f"{fn.fq}|self-import-by-any-ancestor",
+                      f"`{norm(anywhere)[:70]}` holds for every file below *some* directory of that name, not only for files of the models package: generated into `/x/models/proj` the "
+                      "tag module `endpoints/user.py` is taken for `models/user.py` (quoted name, no import, raw dicts) - and the same document gives other bytes than under `/x/work/proj`", fn.loc(anywhere))
+    elif ok:
         rep.ok(rule, sub, "the current file's directory / package is part of the comparison", fn.loc(defs[0]))
     else:
         rep.violation(rule, sub, f"{fn.fq}|self-import-by-basename",
